@@ -382,21 +382,22 @@ Proof.
   split; [lia|]. split; [lia | reflexivity].
 Qed.
 
-(* unescrow succeeds when enough is escrowed and the holding is below the bound *)
+(* unescrow succeeds when enough is escrowed, the quantity has no positive exponent and the holding is
+   representable *)
 Lemma unescrow_total a k str q s :
-  Inv_scale s -> parse str = Ok q -> in_ok q -> 0 < U q ->
+  Inv_scale s -> parse str = Ok q -> in_ok q -> dexp q <= 0 -> 0 < U q ->
   U q <= U (bl_escrowed (get_balance s a k)) ->
   U (bl_tradable (get_balance s a k)) + U (bl_escrowed (get_balance s a k)) < BOUND ->
   exists s', unescrow_credits a k str s = LOk s'.
 Proof.
-  intros (Hs1 & _) Hp Hq Hpos Hle Hb. unfold unescrow_credits. rewrite Hp. cbn [lift lbind].
+  intros (Hs1 & _) Hp Hq Hexp Hpos Hle Hb. unfold unescrow_credits. rewrite Hp. cbn [lift lbind].
   unfold get_balance in Hle, Hb.
   destruct (balances s !! (a, k)) as [b|] eqn:E; cbn [default id from_option lbind] in *.
   2:{ unfold zero_balance in Hle. cbn [bl_escrowed] in Hle. rewrite U_dzero in Hle. lia. }
   destruct (Hs1 _ _ E) as (Ht & Hr & He).
   pose proof (in_ok_U_nonneg _ (stored_in_ok _ Ht)). pose proof (in_ok_U_nonneg _ (stored_in_ok _ He)).
-  destruct (safe_sub_total (bl_escrowed b) q He Hq Hpos Hle) as [ne Hne]; [lia|].
-  destruct (safe_add_total (bl_tradable b) q Ht Hq Hpos) as [nt Hnt]; [lia|].
+  destruct (safe_sub_total (bl_escrowed b) q He Hq Hexp Hpos Hle) as [ne Hne]; [lia|].
+  destruct (safe_add_total (bl_tradable b) q Ht Hq Hexp Hpos) as [nt Hnt]; [lia|].
   rewrite Hne, Hnt. cbn [lift lbind]. unfold update_balance, orm_update. rewrite E. cbn [lbind]. eauto.
 Qed.
 
